@@ -156,3 +156,32 @@ type Program struct {
 }
 
 func B(final Expr, stmts ...Stmt) *Block { return &Block{Stmts: stmts, Final: final} }
+
+// Type declarations with layout (C06: "cases and fields").
+type (
+	FieldDecl struct {
+		Name string
+		Type Type
+	}
+	RecordDecl struct {
+		Name    string
+		TParams []string
+		Fields  []FieldDecl
+	}
+	CaseDecl struct {
+		Name    string
+		Payload Type // "" = none
+	}
+	UnionDecl struct {
+		Name    string
+		TParams []string
+		Cases   []CaseDecl
+	}
+	// TypeGroup: type A = ... and B = ...
+	TypeGroup struct{ Decls []Def }
+	// PkgInfoDecl: package_info P = <lines>
+	PkgInfoDecl struct {
+		Pkg   string
+		Lines []string
+	}
+)
